@@ -70,25 +70,25 @@ theorem rounds_needed_bound (s : S) : mu s = muM s + muO s + muE s + muI s := rf
     initial configuration (with a positive read size) as soon as the process has exited and the
     pipes are closed -/
 theorem reachable_good (hi ht w p e : Bool) (o er : List Chunk) (ins : List InItem) (ho sf : Bool)
-    (n : Nat) (hn : 0 < n) (evs : List Ev)
-    (hx : (run (S.init hi ht w p e o er ins ho sf n) evs).exited = true)
-    (h1 : (run (S.init hi ht w p e o er ins ho sf n) evs).out.isOpen = false)
-    (h2 : (run (S.init hi ht w p e o er ins ho sf n) evs).err.isOpen = false) :
-    Good (run (S.init hi ht w p e o er ins ho sf n) evs) := by
-  refine ⟨⟨hx, h1, h2, ?_⟩, termWF_run _ evs (termWF_init hi ht w p e o er ins ho sf n)⟩
-  have := opts_run (S.init hi ht w p e o er ins ho sf n) evs
+    (n : Nat) (asy : Bool) (hn : 0 < n) (evs : List Ev)
+    (hx : (run (S.init hi ht w p e o er ins ho sf n asy) evs).exited = true)
+    (h1 : (run (S.init hi ht w p e o er ins ho sf n asy) evs).out.isOpen = false)
+    (h2 : (run (S.init hi ht w p e o er ins ho sf n asy) evs).err.isOpen = false) :
+    Good (run (S.init hi ht w p e o er ins ho sf n asy) evs) := by
+  refine ⟨⟨hx, h1, h2, ?_⟩, termWF_run _ evs (termWF_init hi ht w p e o er ins ho sf n asy)⟩
+  have := opts_run (S.init hi ht w p e o er ins ho sf n asy) evs
   simp only [S.opts, Prod.mk.injEq] at this
   rw [this.2.2.2.2.2.2.2]; simpa [S.init] using hn
 
 /-- termination from reachable states: the two previous theorems composed -/
 theorem reachable_terminates (hi ht w p e : Bool) (o er : List Chunk) (ins : List InItem) (ho sf : Bool)
-    (n : Nat) (hn : 0 < n) (evs : List Ev) (rs : List (List Actor))
-    (hx : (run (S.init hi ht w p e o er ins ho sf n) evs).exited = true)
-    (h1 : (run (S.init hi ht w p e o er ins ho sf n) evs).out.isOpen = false)
-    (h2 : (run (S.init hi ht w p e o er ins ho sf n) evs).err.isOpen = false)
-    (hc : ∀ r ∈ rs, Covers r) (hl : mu (run (S.init hi ht w p e o er ins ho sf n) evs) < rs.length) :
-    Terminal (rs.foldl runRound (run (S.init hi ht w p e o er ins ho sf n) evs)) :=
-  rounds_terminate _ rs (reachable_good hi ht w p e o er ins ho sf n hn evs hx h1 h2) hc hl
+    (n : Nat) (asy : Bool) (hn : 0 < n) (evs : List Ev) (rs : List (List Actor))
+    (hx : (run (S.init hi ht w p e o er ins ho sf n asy) evs).exited = true)
+    (h1 : (run (S.init hi ht w p e o er ins ho sf n asy) evs).out.isOpen = false)
+    (h2 : (run (S.init hi ht w p e o er ins ho sf n asy) evs).err.isOpen = false)
+    (hc : ∀ r ∈ rs, Covers r) (hl : mu (run (S.init hi ht w p e o er ins ho sf n asy) evs) < rs.length) :
+    Terminal (rs.foldl runRound (run (S.init hi ht w p e o er ins ho sf n asy) evs)) :=
+  rounds_terminate _ rs (reachable_good hi ht w p e o er ins ho sf n asy hn evs hx h1 h2) hc hl
 
 /-- resources: at the end every I/O worker has finished … -/
 theorem resources_released (s : S) (h : Terminal s) :
@@ -100,14 +100,14 @@ theorem resources_released (s : S) (h : Terminal s) :
 
 /-- … and the timeout timer is disarmed whenever `run` has returned, along every schedule -/
 theorem timer_disarmed_after_return (hi ht w p e : Bool) (o er : List Chunk) (ins : List InItem) (ho sf : Bool)
-    (n : Nat) (evs : List Ev) :
-    (run (S.init hi ht w p e o er ins ho sf n) evs).mainPc = .done →
-    (run (S.init hi ht w p e o er ins ho sf n) evs).tmPc ≠ .armed :=
-  (doneDisarmed_run _ evs (doneDisarmed_init hi ht w p e o er ins ho sf n)).done
+    (n : Nat) (asy : Bool) (evs : List Ev) :
+    (run (S.init hi ht w p e o er ins ho sf n asy) evs).mainPc = .done →
+    (run (S.init hi ht w p e o er ins ho sf n asy) evs).tmPc ≠ .armed :=
+  (doneDisarmed_run _ evs (doneDisarmed_init hi ht w p e o er ins ho sf n asy)).done
 
 /-- a process that cannot be started: `run` reports the failure at once, no worker and no timer exist -/
-theorem start_failure_reports (hi ht w p e : Bool) (o er : List Chunk) (ins : List InItem) (ho : Bool) (n : Nat) :
-    let s := S.init hi ht w p e o er ins ho true n
+theorem start_failure_reports (hi ht w p e : Bool) (o er : List Chunk) (ins : List InItem) (ho : Bool) (n : Nat) (asy : Bool) :
+    let s := S.init hi ht w p e o er ins ho true n asy
     Terminal s ∧ s.outcome = .startFailed ∧ s.tmPc = .none := by
   simp [S.init, Terminal, S.rdDone]
 
